@@ -999,6 +999,32 @@ def rule_offset_no_wrap(prog, run):
     run.instance(rid)
     bad = [i for i, n in f.calls() if (f.cname(n) or '').startswith('QTime::') and (f.cname(n) or '').split('::')[-1] in ('addSecs', 'addMSecs', 'fromMSecsSinceStartOfDay', 'toString')] + \
           [i for i, n in f.all_nodes('construct') if (n.get('cls') or '') == 'QTime' and n.get('args')]
+    # the largest offset the parser accepts must fit the two hour digits the parser itself insists on
+    pf = prog.fn('QXmppUtils::timezoneOffsetFromString')
+    lits = [pf.nodes[j]['v'] for j in range(len(pf.nodes)) if pf.nodes[j]['k'] == 'str' and '([+-])' in pf.nodes[j].get('v', '')]
+    run.instance(rid)
+    if len(lits) != 1:
+        run.ok(rid, pf.loc(), 'offset syntax not given as one regular expression: range not evaluated', nontrivial=False)
+    else:
+        groups = re.findall(r'\(((?:\[[^\]]+\](?:\{\d+\})?)+)\)', lits[0].split('([+-])', 1)[1])
+
+        def gmax(g):
+            digits = ''
+            for cls, rep in re.findall(r'\[([^\]]+)\](?:\{(\d+)\})?', g):
+                top = max(int(ch) for ch in re.findall(r'\d', cls))
+                digits += str(top) * int(rep or 1)
+            return int(digits) if digits else None
+        mx = [gmax(g) for g in groups[:2]]
+        if len(mx) == 2 and None not in mx:
+            hours_written = (mx[0] * 60 + mx[1]) // 60
+            if len(str(hours_written)) > len(str(mx[0])):
+                run.violation(rid, 'timezoneOffsetFromString#accepts-more-than-it-can-write', pf.loc(),
+                              'the parser accepts offsets up to %d:%02d; the largest one is written with %d hours - more hour digits than the parser reads - so the next pass '
+                              'no longer recognises it' % (mx[0], mx[1], hours_written))
+            else:
+                run.ok(rid, pf.loc(), 'largest accepted offset %d:%02d is written as %d hours: within the syntax the parser reads' % (mx[0], mx[1], hours_written))
+        else:
+            run.ok(rid, pf.loc(), 'offset syntax has a form the checker does not evaluate', nontrivial=False)
     if bad:
         run.violation(rid, 'timezoneOffsetToString#formats-through-QTime', f.loc(bad[0]),
                       'timezoneOffsetToString formats the offset through QTime (%s): offsets of 24 hours and more wrap, the written value differs from the parsed one and the '
